@@ -2,13 +2,13 @@ HOOK_COMMITS = ["5725d8a", "72fc8af", "02a3b0a", "612d0fb", "b86372f", "85d33e5"
 
 TEXT = {
     "C01": {
-        "level_text": "Held on every monitored sm3_hash call of a sweep that covers every length 0..=4096 in four content classes, every single-bit message over three blocks, random multi-block messages, a 2^29-byte message (thorough: up to 2^32 bytes), and purity re-hashes; each digest compared with an independent streaming SM3 and frozen OpenSSL digests. Exploration is the right level: the input space is unbounded and the function has no state to model.",
+        "level_text": "Held on every monitored sm3_hash call of a sweep that covers every length 0..=4096 in four content classes, every single-bit message over three blocks, random multi-block messages, lengths 2^k + r for every r in 0..=64 at k = 16, 20, 24 (thorough: also 13, 22, 26, 28), a 2^29-byte message (thorough: up to 2^32 bytes) each followed at once by short messages of every padding shape, and purity re-hashes; each digest compared with an independent streaming SM3 and frozen OpenSSL digests. Exploration is the right level: the input space is unbounded and the function has no state to model.",
         "design_ref": "DESIGN.md section 6 C01",
         "level_note": "Trusted: reference SM3 (anchored by standard KATs + OpenSSL corpus on every run). Not covered: messages >= 128 GiB.",
         "technique": "runtime differential monitor against reference SM3 + frozen OpenSSL corpus",
     },
     "C02": {
-        "level_text": "Held on every monitored block encrypt/decrypt of structured and random (key, block) pairs, an OpenSSL ECB corpus, all 256 S-box indices per byte lane, and long interleaved encrypt/decrypt histories on single cipher objects and their clones, each compared with an independent SM4 (algebraically derived S-box).",
+        "level_text": "Held on every monitored block encrypt/decrypt of structured and random (key, block) pairs, an OpenSSL ECB corpus, all 256 S-box indices per byte lane, and long interleaved encrypt/decrypt histories on single cipher objects and their clones with failing calls of either direction in between, each compared with an independent SM4 (algebraically derived S-box).",
         "design_ref": "DESIGN.md section 6 C02",
         "level_note": "Trusted: reference SM4 (standard example, 10^6 iterate, 400 OpenSSL vectors re-checked on every run).",
         "technique": "runtime differential monitor + call-history monitor on shared cipher objects",
@@ -20,7 +20,7 @@ TEXT = {
         "technique": "runtime differential monitor against reference modes + outcome-class monitor for error cases",
     },
     "C08": {
-        "level_text": "Held on every monitored generator history: official vectors, structured and random keys/IVs, all 4095 compositions of <= 12 words (exhaustive) with zero-length requests at every position, random splits of streams up to 2^16 (thorough 2^20) words, and crafted key/IVs that hit the LFSR feedback = 0 rule in initialisation and in work mode.",
+        "level_text": "Held on every monitored generator history: official vectors, structured and random keys/IVs, all 4095 compositions of <= 12 words (exhaustive) with zero-length requests at every position, random splits of streams up to 2^16 (thorough 2^20) words, single requests at powers of two up to 2^24 + 1 words, and crafted key/IVs that hit the LFSR feedback = 0 rule in initialisation and in work mode.",
         "design_ref": "DESIGN.md section 6 C08",
         "level_note": "Trusted: reference ZUC (official vectors per run); S0 is a frozen table copy validated by those vectors.",
         "technique": "runtime history monitor: request sequences checked word-by-word against a reference stream",
@@ -35,13 +35,13 @@ TEXT = {
 
 TEXT.update({
     "C03": {
-        "level_text": "Held on every monitored sign/verify: byte-exact equality with an independent GB/T 32918.2 signer for injected nonces (incl. the GM/T 0003.5 example and crafted e >= n digests), range + cross-verification + nonce-used==nonce-drawn for free nonces, acceptance of reference-made and OpenSSL-made signatures, ID length limits.",
+        "level_text": "Held on every monitored sign/verify: byte-exact equality with an independent GB/T 32918.2 signer for injected nonces (incl. the GM/T 0003.5 example and crafted e >= n digests), range + cross-verification + nonce-used==nonce-drawn for free nonces, acceptance of reference-made and OpenSSL-made signatures, ID length limits, messages up to 2^29 bytes (SM3 bit length beyond 32 bits).",
         "design_ref": "DESIGN.md section 6 C03",
         "level_note": "Trusted: affine BigUint SM2 reference (Annex-anchored), OpenSSL corpus, RNG hook. Retry branches unreachable.",
         "technique": "runtime differential monitor with RNG-hook nonce injection + cross-verification",
     },
     "C04": {
-        "level_text": "Fault enumeration over the mutated-signature space of many valid signatures: every bit flip (exhaustive per sample), boundary substitutions, modular aliases (crafted s+n), altered message/ID/key, every encoding length 0..=130; the library must never accept what the reference verifier rejects and must never panic.",
+        "level_text": "Fault enumeration over the mutated-signature space of many valid signatures: every bit flip (exhaustive per sample), boundary substitutions, modular aliases (crafted s+n), altered message/ID/key, every encoding length 0..=130, a 2^29-byte message; the library must never accept what the reference verifier rejects and must never panic.",
         "design_ref": "DESIGN.md section 6 C04",
         "level_note": "Trusted: reference verifier. One-sided rule except for the untouched signature. t=0 clause undecidable (stated).",
         "technique": "runtime fault-injection monitor on signature bytes with reference-verifier oracle",
@@ -80,7 +80,7 @@ TEXT.update({
         "technique": "runtime differential monitor with RNG-hook r injection + ciphertext fault injection",
     },
     "C17": {
-        "level_text": "Held on every monitored key-exchange history: all exchanged values and both derived keys equal the reference's GM/T 0044.3 values (incl. the Annex example), off-curve R rejected, tampered R makes the keys differ.",
+        "level_text": "Held on every monitored key-exchange history: all exchanged values and both derived keys equal the reference's GM/T 0044.3 values (incl. the Annex example), off-curve R rejected, tampered R makes the keys differ; histories alternate master keys ke and N - ke on one thread.",
         "design_ref": "DESIGN.md section 6 C17",
         "level_note": "Trusted: textbook SM9 reference; RNG hook.",
         "technique": "runtime history monitor of the 3-step protocol against a reference run, with in-transit tampering",
@@ -89,7 +89,7 @@ TEXT.update({
 
 TEXT.update({
     "C12": {
-        "level_text": "Held on every monitored pairing evaluation: exact 384-byte equality with an independent textbook pairing (generic Miller loop over Fp[w]/(w^12+2), final exponent (p^12-1)/N) incl. the Annex value and inputs with Z != 1, plus bilinearity / non-degeneracy / order identities on many more pairs.",
+        "level_text": "Held on every monitored pairing evaluation: exact 384-byte equality with an independent textbook pairing (generic Miller loop over Fp[w]/(w^12+2), final exponent (p^12-1)/N) incl. the Annex value, inputs with Z != 1 and consecutive calls on opposite points that share stored X, Y (Z negated) against the stored generators, plus bilinearity / non-degeneracy / order identities on many more pairs.",
         "design_ref": "DESIGN.md section 6 C12",
         "level_note": "Trusted: textbook pairing reference anchored by GM/T 0044.5 values and by its own plain-exponent final exponentiation self-test.",
         "technique": "runtime differential monitor of pairing values against a textbook reference + algebraic identity monitors",
@@ -119,7 +119,7 @@ TEXT.update({
 
 TEXT.update({
     "C14": {
-        "level_text": "Held on every monitored invocation of the 13 randomised call sites: hook-observed scalars in range, used == drawn (reference recomputation), no repetition across calls/threads/processes, 8-sigma per-bit statistics against the exact uniform expectation, and fault injection of out-of-range candidates at the RNG byte source.",
+        "level_text": "Held on every monitored invocation of the 13 randomised call sites: hook-observed scalars in range, used == drawn (reference recomputation), no repetition across calls, threads (SM2 nonces and SM9 master keys on 8 threads and the spawning thread) and processes, 8-sigma per-bit statistics against the exact uniform expectation, and fault injection of out-of-range candidates at the RNG byte source.",
         "design_ref": "DESIGN.md section 6 C14",
         "level_note": "Trusted: RNG hook placement (after fill_bytes, before the range test), references for recomputation. 'OS-seeded' only observable indirectly.",
         "technique": "runtime monitor on hooked RNG state: range / used==drawn / duplicate / bit-frequency monitors + fault injection at the byte source",
@@ -134,7 +134,7 @@ TEXT.update({
         "technique": "runtime differential monitor of codecs against an independent DER implementation + OpenSSL corpus + rejection monitor",
     },
     "C20": {
-        "level_text": "Fault enumeration over lengths, truncations, byte corruptions, crafted documents and boundary keys at every listed entry point, each call under panic capture, an RNG-draw step limit and a shard watchdog, in both build profiles; one known finding (mod_n_from_hash on < 40 bytes panics, no error channel) is recorded.",
+        "level_text": "Fault enumeration over lengths, truncations, byte corruptions, crafted documents, ciphertext bodies beyond 2^16 / 2^21 / 2^24 bytes and boundary keys at every listed entry point, each call under panic capture, an RNG-draw step limit and a shard watchdog, in both build profiles; one known finding (mod_n_from_hash on < 40 bytes panics, no error channel) is recorded.",
         "design_ref": "DESIGN.md section 6 C20",
         "level_note": "Outcome-class oracle only (Ok/Err vs panic/step-limit/abort); says nothing about the returned values (other properties do).",
         "technique": "runtime outcome-class monitor under panic capture, RNG step counter and watchdog; call/return journal for abort attribution",
